@@ -1,23 +1,37 @@
 #!/bin/bash
-# Must-fail corpus: every kept seeded change whose meta.json names a detecting obligation is applied to a scratch worktree of
-# /repo HEAD; the functions named there are re-verified and at least one obligation has to fail. Prints one line per seed.
+# Must-fail corpus: every kept seeded change is applied to a scratch worktree of /repo HEAD; the functions named in its
+# meta.json (detected_by) are re-verified and the named obligation (or, for "#generate", the generation of the function)
+# has to fail. Prints one line per seed; exit 1 if a seed is no longer detected. Optional argument: a seed id prefix.
 cd /verif
 rc=0
-for meta in seeded/*/meta.json; do
+for meta in seeded/${1:-}*/meta.json; do
   d=$(dirname $meta); id=$(basename $d)
-  funcs=$(python3 - "$meta" <<'PY'
+  read -r funcs obls < <(python3 - "$meta" <<'PY'
 import json,sys,re
 m=json.load(open(sys.argv[1]))
 det=m.get('detected_by','')
-fs=[]
-for tok in re.findall(r'[A-Za-z_.*]+(?:\$[0-9]+)?#', det):
-    f=tok[:-1]
-    if f and f not in fs and '.' in f: fs.append(f)
-print(' '.join(fs))
+fs=[];obs=[]
+for tok in re.findall(r'([A-Za-z_.*]+(?:\$[0-9]+)?)#([A-Za-z0-9_.:$*-]+)', det):
+    f,o=tok
+    if '.' in f:
+        if f not in fs: fs.append(f)
+        obs.append(f+'#'+o)
+print(' '.join(fs), '|'.join(obs) if obs else '-')
 PY
 )
   if [ -z "$funcs" ]; then echo "$id SKIP (no detecting obligation recorded)"; continue; fi
-  out=$(tools/tryseed.sh $d/patch.diff $funcs 2>&1)
-  if echo "$out" | grep -q "FAIL\|ERROR"; then echo "$id DETECTED ($(echo "$out" | grep -c "FAIL\|ERROR") failing) by $funcs"; else echo "$id MISSED by $funcs"; rc=1; fi
+  fl=$(echo "$funcs" | tr ' ' '\n' | sort -u | tr '\n' ' ')
+  out=$(GOVC_T=60 tools/tryseed.sh $d/patch.diff $fl 2>&1)
+  hit=0
+  IFS='|' read -ra OB <<< "$obls"
+  for o in "${OB[@]}"; do
+    case "$o" in
+      *#generate) f=${o%#generate}; echo "$out" | grep -q "$f: ERROR\|ERROR $f" && hit=1 ;;
+      *) echo "$out" | grep -F "FAIL" | grep -qF "$o" && hit=1 ;;
+    esac
+  done
+  if [ $hit = 1 ]; then echo "$id DETECTED by $(echo $obls | cut -c1-120)"; else
+    if echo "$out" | grep -q "FAIL\|ERROR"; then echo "$id DETECTED-OTHER (named obligation passed; failing: $(echo "$out" | grep "FAIL\|ERROR" | head -2 | cut -c1-160 | tr '\n' ';'))"; else echo "$id MISSED by $fl"; rc=1; fi
+  fi
 done
 exit $rc
